@@ -48,11 +48,16 @@ TMeta == /\ IsEvent("MetaWrite")
             IF hs = {} THEN InternalCommit(E.txid) ELSE \E h \in hs : Publish(h)
 
 OutOK(o, logged, spec) == IF o = "Get" THEN ValOK(logged, spec) ELSE logged = spec
+\* "NoBucket": the driver could not resolve the bucket path through Bucket(): legal iff the path does not exist
 TOp == /\ IsEvent("Op")
-       /\ Expect(OpEnabled(E.h, E), "operation not enabled in the specification")
-       /\ DoOp(E.h, E)
-       /\ Expect(ResOK(E.res, last'.res), <<"result; specification says", last'>>)
-       /\ Expect(E.res # "ok" \/ OutOK(E.op, E.out, last'.out), <<"output; specification says", last'>>)
+       /\ IF E.res = "NoBucket"
+          THEN /\ Expect(tx[E.h].st = "open" /\ (~ValidPath(tx[E.h].root, E.path) \/ (E.op = "MoveBucket" /\ ~ValidPath(tx[E.h].root, E.dst))),
+                         "Bucket() returned nil for a bucket that exists in the specification")
+               /\ UNCHANGED vars
+          ELSE /\ Expect(OpEnabled(E.h, E), "operation not enabled in the specification")
+               /\ DoOp(E.h, E)
+               /\ Expect(ResOK(E.res, last'.res), <<"result; specification says", last'>>)
+               /\ Expect(E.res # "ok" \/ OutOK(E.op, E.out, last'.out), <<"output; specification says", last'>>)
 
 TNewCur == IsEvent("NewCur") /\ NewCursor(E.c, E.h, E.path)
 TCur == /\ IsEvent("Cur")
@@ -77,9 +82,24 @@ TEnd == /\ IsEvent("End")
                 ELSE EndCommitFail(E.h) \/ \E present \in BOOLEAN : EndCommitFailPublished(E.h, present)
            ELSE IF tx[E.h].w THEN Rollback(E.h) ELSE EndRead(E.h)
 TReopen == IsEvent("Reopen") /\ Reopen
+\* C14: the opened copy shows exactly the snapshot of the transaction it was taken through
+TBackup == /\ IsEvent("Backup") /\ tx[E.h].st = "open"
+           /\ Expect(E.written = E.size, <<"bytes written differ from tx.Size()", E.size>>)
+           /\ Expect(E.opened, "the backup does not open as a database")
+           /\ Expect(DumpOK(E.root, BackupContent(E.h)), <<"backup content differs from the transaction's snapshot (C14); specification says", BackupContent(E.h)>>)
+           /\ Expect(E.txid = tx[E.h].id /\ E.meta0 = tx[E.h].id /\ E.meta1 = tx[E.h].id - 1, "backup metas are not (txid, txid - 1) with meta 0 winning")
+           /\ Expect(E.checkErrs = 0 /\ E.problems = 0 /\ E.fileLen = E.size, "backup fails the integrity check / page accounting / length")
+           /\ UNCHANGED vars
+\* C15: the destination of a compaction equals the source for every limit
+TCompact == /\ IsEvent("Compact") /\ Quiescent
+            /\ Expect(E.ok, <<"compaction failed", E.err>>)
+            /\ Expect(DumpOK(E.root, CompactContent) /\ DumpOK(E.root, store), <<"compacted content differs from the source (C15); specification says", CompactContent>>)
+            /\ Expect(E.checkErrs = 0 /\ E.problems = 0, "compacted database fails the integrity check / page accounting")
+            /\ Expect(E.srcUnchanged, "compaction changed the source file")
+            /\ UNCHANGED vars
 
 TNext == TReset \/ TBeginCall \/ TBegin \/ TLock \/ TUnlock \/ TMeta \/ TOp \/ TNewCur \/ TCur \/ TCurDel
-         \/ TForEach \/ TDump \/ TEnd \/ TReopen
+         \/ TForEach \/ TDump \/ TEnd \/ TReopen \/ TBackup \/ TCompact
 TSpec == TInit /\ [][TNext]_tvars
 
 \* acceptance: the whole trace was consumed (high-water mark of l; -workers 1)
